@@ -23,6 +23,8 @@ var c11Inputs = []c11Input{
 	{"var x = 1\nprint x\nprint (\n", -1},             // late syntax error
 	{"print $\nvar x = 1\nprint x + 2\n", 6},          // early lexical failure
 	{"var x = 1\nprint x + 2\nprint $\n", 28},         // late lexical failure
+	{"def t {\n ratio = 1.\n}\nprint 1\n", 18},         // lexical failure inside an open block
+	{"def t {\n def u {\n x = \"a\n}\n}\n", 25},         // unterminated string two blocks deep
 }
 
 // C11_Script: every reader script of k reads (sizes 0 / 1 / 7 / rest, each
